@@ -307,10 +307,10 @@ Section CGProofs.
   Variable n : nat.
   Hypothesis Hop_len : forall u, length (Hop u) = n.
   (* definiteness: a vector that is not orthogonal to everything has non-zero curvature *)
-  Hypothesis Hop_definite : forall u w, length w = n -> << u, w >> <> 0 -> << u, Hop u >> <> 0.
+  Hypothesis Hop_definite : forall u w, length u = n -> length w = n -> << u, w >> <> 0 -> << u, Hop u >> <> 0.
 
   Definition Dinv (st : state F) : Prop :=
-    length (sr st) = n /\
+    length (sr st) = n /\ length (sp st) = n /\
     match sprev st with
     | None => sp st = sr st
     | Some rrp => rrp <> 0 /\ << sr st, sp st >> = 0
@@ -318,22 +318,24 @@ Section CGProofs.
 
   Lemma step_definite st : Dinv st -> step st <> Fail /\ forall st', step st = Next st' -> Dinv st'.
   Proof.
-    intros [Hlen Hinv]. split.
+    intros (Hlen & Hlenp & Hinv). split.
     - unfold cg_step. destruct (feqb << sr st, sr st >> 0) eqn:E0; [discriminate|]. cbn [orb].
       assert (Hrr : << sr st, sr st >> <> 0) by (intros Hc; apply feqb_spec in Hc; congruence).
       destruct (negb (feqb tol 0) && fltb _ _); [discriminate|].
       destruct (sprev st) as [rrp|].
       + destruct Hinv as [Hrrp Horth]. rewrite (sdiv_nonzero _ _ Hrrp).
         rewrite sdiv_nonzero; [discriminate|].
-        apply (Hop_definite _ (sr st) Hlen).
+        apply (Hop_definite _ (sr st)); [rewrite length_vadd, length_vscale; lia | exact Hlen |].
         rewrite dot_vadd_l, dot_vscale_l, (dot_comm (sp st)), Horth.
         match goal with |- ?e <> 0 => assert (E : e = << sr st, sr st >>) by (field; exact Hrrp) end.
         rewrite E. exact Hrr.
       + rewrite Hinv. rewrite sdiv_nonzero; [discriminate|].
-        apply (Hop_definite _ (sr st) Hlen). exact Hrr.
+        apply (Hop_definite _ (sr st) Hlen Hlen). exact Hrr.
     - intros st' Hs. apply step_next in Hs. cbn zeta in Hs.
       destruct Hs as [Hrr (p & alpha & Hp & Hd & -> & ->)]. unfold Dinv. cbn [sr sp sprev].
-      split; [rewrite length_vsub, length_vscale, Hop_len, Hlen; lia|]. split; [exact Hrr|].
+      split; [rewrite length_vsub, length_vscale, Hop_len, Hlen; lia|].
+      split; [destruct (sprev st); [destruct Hp as [_ ->]; rewrite length_vadd, length_vscale; lia | rewrite Hp; exact Hlenp]|].
+      split; [exact Hrr|].
       assert (Hpr : << sr st, p >> = << sr st, sr st >>).
       { destruct (sprev st) as [rrp|].
         - destruct Hinv as [Hrrp Horth]. destruct Hp as [_ ->].
@@ -354,7 +356,8 @@ Section CGProofs.
   Proof.
     intros Hb. unfold cg_run. destruct (feqb _ _); [discriminate|].
     apply iter_definite. unfold Dinv, cg_init. cbn [sr sp sprev].
-    split; [|reflexivity]. rewrite length_vsub, Hop_len, Hb. lia.
+    assert (Hl : length (b -v Hop match x0 with Some x => x | None => b end) = n) by (rewrite length_vsub, Hop_len, Hb; lia).
+    repeat split; exact Hl.
   Qed.
 
   (* cg never produces a non-finite value: for every start value, budget and tolerance (0 included) *)
@@ -363,5 +366,337 @@ Section CGProofs.
     intros Hb. unfold cg. pose proof (cg_run_finite b x0 m Hb) as Hf.
     destruct (run b x0 m) as [[y|] h]; [|cbn in Hf; congruence].
     destruct x0 as [x0|]; [destruct (Nat.eqb _ _)|]; discriminate.
+  Qed.
+
+  (* ================================================================ part 2: self-adjoint H *)
+  Hypothesis Hop_sym : forall u v, << u, Hop v >> = << Hop u, v >>.
+
+  Lemma fmul_zero_inv a x : a <> 0 -> a * x = 0 -> x = 0.
+  Proof. intros Ha Hx. transitivity (a * x / a); [field; exact Ha|]. rewrite Hx. field. exact Ha. Qed.
+
+  Lemma fdiv_nonzero a b : a <> 0 -> b <> 0 -> a / b <> 0.
+  Proof. intros Ha Hb Hq. apply Ha. transitivity (a / b * b); [field; exact Hb|]. rewrite Hq. ring. Qed.
+
+  (* past = list of (direction p_j, residual r_j before the step), most recent first *)
+  Notation entry := (vec * vec)%type.
+
+  Fixpoint chain (rc : vec) (past : list entry) : Prop :=
+    match past with
+    | [] => True
+    | (p, r) :: rest =>
+      (exists a, a <> 0 /\ rc = r -v a *v Hop p) /\
+      (match rest with [] => p = r | (p', _) :: _ => exists beta, p = r +v beta *v p' end) /\
+      chain r rest
+    end.
+
+  Fixpoint conj (past : list entry) : Prop :=
+    match past with
+    | [] => True
+    | (p, _) :: rest => Forall (fun e : entry => << p, Hop (fst e) >> = 0) rest /\ conj rest
+    end.
+
+  Lemma chain_orth_H (L : list entry) : forall rc v, chain rc L -> << v, rc >> = 0 ->
+    Forall (fun e : entry => << v, snd e >> = 0) L -> Forall (fun e : entry => << v, Hop (fst e) >> = 0) L.
+  Proof.
+    induction L as [|[p r] L IH]; intros rc v Hc Hv Hr; [constructor|].
+    destruct Hc as [(a & Ha & Hrc) [_ Hc]]. apply Forall_cons_iff in Hr. destruct Hr as [Hr1 Hr2]. cbn [snd] in Hr1.
+    constructor; [|eapply IH; eassumption].
+    cbn [fst]. apply (fmul_zero_inv a); [exact Ha|].
+    rewrite Hrc, dot_vsub_r, dot_vscale_r, Hr1 in Hv.
+    transitivity (0 - (0 - a * << v, Hop p >>)); [ring|]. rewrite Hv. ring.
+  Qed.
+
+  Lemma chain_orth_r (L : list entry) : forall rc v, chain rc L ->
+    Forall (fun e : entry => << v, fst e >> = 0) L -> Forall (fun e : entry => << v, snd e >> = 0) L.
+  Proof.
+    induction L as [|[p r] L IH]; intros rc v Hc Hp; [constructor|].
+    destruct Hc as [_ [Hlink Hc]]. apply Forall_cons_iff in Hp. destruct Hp as [Hp1 Hp2]. cbn [fst] in Hp1.
+    constructor; [|eapply IH; eassumption]. cbn [snd].
+    destruct L as [|[p' r'] L'].
+    - rewrite <- Hlink. exact Hp1.
+    - destruct Hlink as [beta Hlink]. pose proof (proj1 (proj1 (Forall_cons_iff _ _ _) Hp2)) as Hp21. cbn [fst] in Hp21.
+      rewrite Hlink, dot_vadd_r, dot_vscale_r, Hp21 in Hp1.
+      transitivity (<< v, r >> + beta * 0); [ring|exact Hp1].
+  Qed.
+
+  Fixpoint lincomb (cs : list F) (ps : list vec) : vec :=
+    match cs, ps with
+    | c :: cs', p :: ps' => c *v p +v lincomb cs' ps'
+    | _, _ => []
+    end.
+
+  Lemma dot_lincomb v ps : Forall (fun p : vec => << v, p >> = 0) ps -> forall cs, << v, lincomb cs ps >> = 0.
+  Proof.
+    induction 1 as [|p ps Hp _ IH]; intros [|c cs]; cbn [lincomb]; try apply dot_nil_r.
+    rewrite dot_vadd_r, dot_vscale_r, Hp, IH. ring.
+  Qed.
+
+  Variable x0v : vec.   (* the start value the run began with *)
+
+  Definition Inv (past : list entry) (st : state F) : Prop :=
+    chain (sr st) past /\
+    Forall (fun e : entry => << sr st, fst e >> = 0) past /\
+    Forall (fun e : entry => << sr st, snd e >> = 0) past /\
+    conj past /\
+    (exists cs, sx st = x0v +v lincomb cs (map fst past)) /\
+    match past with
+    | [] => sprev st = None /\ sp st = sr st
+    | (p, r) :: _ => sp st = p /\ sprev st = Some << r, r >> /\ << r, r >> <> 0 /\ << p, Hop p >> <> 0 /\
+                     sr st = r -v (<< r, r >> / << p, Hop p >>) *v Hop p
+    end.
+
+  Lemma Forall_fst_map {A B} (P : A -> Prop) (l : list (A * B)) :
+    Forall (fun e => P (fst e)) l -> Forall P (map fst l).
+  Proof. induction 1; cbn; constructor; assumption. Qed.
+
+  Lemma step_Inv past st st' : Inv past st -> step st = Next st' -> Inv ((sp st', sr st) :: past) st'.
+  Proof.
+    intros (Hch & Hop_ & Hor & Hcj & (cs & Hx) & Hhead) Hs.
+    apply step_next in Hs. cbn zeta in Hs. destruct Hs as [Hrr (p & alpha & Hp & Hd & Halpha & ->)].
+    cbn [sp sr sx sprev].
+    set (r := sr st) in *. set (rr := << r, r >>) in *.
+    (* <r, p> = rr *)
+    assert (Hrp : << r, p >> = rr).
+    { destruct past as [|[p1 r1] rest].
+      - destruct Hhead as [Hprev Hsp]. rewrite Hprev in Hp. rewrite Hp, Hsp. reflexivity.
+      - destruct Hhead as (Hsp & Hprev & Hrr1 & _). rewrite Hprev in Hp. destruct Hp as [_ ->].
+        pose proof (proj1 (proj1 (Forall_cons_iff _ _ _) Hop_)) as H1. cbn [fst] in H1. rewrite Hsp.
+        rewrite dot_vadd_r, dot_vscale_r, H1. fold rr. field. exact Hrr1. }
+    (* the new direction is conjugate to all previous ones *)
+    assert (Hnew : Forall (fun e : entry => << p, Hop (fst e) >> = 0) past).
+    { destruct past as [|[p1 r1] rest]; [constructor|].
+      destruct Hhead as (Hsp & Hprev & Hrr1 & Hd1 & Hr1). rewrite Hprev in Hp. destruct Hp as [_ ->]. rewrite Hsp.
+      apply Forall_cons_iff in Hor. destruct Hor as [Ho1 Ho2]. cbn [snd] in Ho1.
+      destruct Hch as [_ [_ Hch']]. destruct Hcj as [Hcj1 Hcj2].
+      constructor.
+      - cbn [fst]. rewrite dot_vadd_l, dot_vscale_l.
+        (* <r, H p1> from r = r1 - a1 H p1 *)
+        assert (E : (<< r1, r1 >> / << p1, Hop p1 >>) * << r, Hop p1 >> = 0 - rr).
+        { assert (Err : rr = << r, r1 -v (<< r1, r1 >> / << p1, Hop p1 >>) *v Hop p1 >>) by (rewrite <- Hr1; reflexivity).
+          rewrite Err, dot_vsub_r, dot_vscale_r, Ho1. ring. }
+        assert (E2 : << r, Hop p1 >> = (0 - rr) * << p1, Hop p1 >> / << r1, r1 >>).
+        { rewrite <- E. field. split; assumption. }
+        rewrite E2. fold rr. field. exact Hrr1.
+      - assert (HrH : Forall (fun e : entry => << r, Hop (fst e) >> = 0) rest).
+        { apply (chain_orth_H rest r1 r Hch' Ho1 Ho2). }
+        rewrite Forall_forall in *. intros e He. rewrite dot_vadd_l, dot_vscale_l, (HrH e He), (Hcj1 e He). ring. }
+    (* the new residual is orthogonal to all directions, the new one included *)
+    assert (Hop' : Forall (fun e : entry => << r -v alpha *v Hop p, fst e >> = 0) ((p, r) :: past)).
+    { constructor.
+      - cbn [fst]. rewrite dot_vsub_l, dot_vscale_l, Hrp, <- Hop_sym, Halpha. field. exact Hd.
+      - rewrite Forall_forall in *. intros e He.
+        rewrite dot_vsub_l, dot_vscale_l, (Hop_ e He), <- Hop_sym, (Hnew e He). ring. }
+    assert (Hal : alpha <> 0) by (rewrite Halpha; apply fdiv_nonzero; assumption).
+    assert (Hch' : chain (r -v alpha *v Hop p) ((p, r) :: past)).
+    { cbn [chain]. split; [exists alpha; split; [exact Hal|reflexivity]|]. split; [|exact Hch].
+      destruct past as [|[p1 r1] rest].
+      - destruct Hhead as [Hprev Hsp]. rewrite Hprev in Hp. rewrite Hp, Hsp. reflexivity.
+      - destruct Hhead as (Hsp & Hprev & _). rewrite Hprev in Hp. destruct Hp as [_ ->]. rewrite Hsp. eexists. reflexivity. }
+    unfold Inv. cbn [sp sr sx sprev]. repeat split.
+    - exists alpha. split; [exact Hal|reflexivity].
+    - destruct Hch' as [_ [Hl _]]. exact Hl.
+    - exact Hch.
+    - exact Hop'.
+    - exact (chain_orth_r _ _ _ Hch' Hop').
+    - exact Hnew.
+    - exact Hcj.
+    - exists (alpha :: cs). cbn [map fst lincomb]. rewrite Hx. apply vec_ext.
+      + repeat (rewrite ?length_vadd, ?length_vscale). lia.
+      + intros i. repeat (rewrite ?nth_vadd, ?nth_vscale). ring.
+    - exact Hrr.
+    - exact Hd.
+    - rewrite Halpha. reflexivity.
+  Qed.
+
+  Fixpoint past_of (prev : state F) (h : list (state F)) (acc : list entry) : list entry :=
+    match h with [] => acc | s :: h' => past_of s h' ((sp s, sr prev) :: acc) end.
+
+  Lemma iter_Inv fuel : forall st past res h, Inv past st -> iter fuel st = (res, h) ->
+    forall h1 s h2, h = h1 ++ s :: h2 -> Inv (past_of st (h1 ++ [s]) past) s.
+  Proof.
+    induction fuel as [|fuel IH]; intros st past res h HI Hi h1 s h2 Hh; cbn [cg_iter] in Hi.
+    - injection Hi as _ <-. destruct h1; discriminate.
+    - destruct (step st) as [| |st'] eqn:Es; try (injection Hi as _ <-; destruct h1; discriminate).
+      destruct (iter fuel st') as [res' h'] eqn:Ei. injection Hi as _ <-.
+      pose proof (step_Inv _ _ _ HI Es) as HI'.
+      destruct h1 as [|s1 h1]; cbn [app] in Hh; injection Hh as <- Hh.
+      + cbn [app past_of]. exact HI'.
+      + cbn [app past_of]. eapply IH; eassumption.
+  Qed.
+
+  Lemma past_of_dirs h : forall prev acc, map fst (past_of prev h acc) = rev (map (@sp F) h) ++ map fst acc.
+  Proof.
+    induction h as [|s h IH]; intros prev acc; cbn [past_of map rev]; [reflexivity|].
+    rewrite IH. cbn [map fst]. rewrite <- app_assoc. reflexivity.
+  Qed.
+
+  Lemma past_of_res h : forall prev acc, map snd (past_of prev h acc) = rev (map (@sr F) (removelast (prev :: h))) ++ map snd acc.
+  Proof.
+    induction h as [|s h IH]; intros prev acc; [reflexivity|].
+    cbn [past_of]. rewrite IH. cbn [map snd]. change (removelast (prev :: s :: h)) with (prev :: removelast (s :: h)).
+    cbn [map rev]. rewrite <- app_assoc. reflexivity.
+  Qed.
+
+  Lemma Inv_init b x0 : x0v = sx (init b x0) -> Inv [] (init b x0).
+  Proof.
+    intros Hx. unfold Inv, cg_init. cbn [sr sp sx sprev chain conj map lincomb]. repeat split; try constructor.
+    exists []. cbn [lincomb]. unfold cg_init in Hx. cbn [sx] in Hx. rewrite <- Hx. apply vec_ext.
+    - rewrite length_vadd. cbn. lia.
+    - intros i. rewrite nth_vadd. destruct i; cbn; ring.
+  Qed.
+
+  (* ---- the invariant at every state reached by a run *)
+  Theorem run_Inv b x0 m res h : x0v = sx (init b x0) -> run b x0 m = (res, h) ->
+    forall h1 s h2, h = h1 ++ s :: h2 -> Inv (past_of (init b x0) (h1 ++ [s]) []) s.
+  Proof.
+    intros Hx Hr. unfold cg_run in Hr. destruct (feqb _ _).
+    - injection Hr as _ <-. intros h1 s h2 Hh. destruct h1; discriminate.
+    - eapply iter_Inv; [apply Inv_init; exact Hx | exact Hr].
+  Qed.
+
+  (* ---- error in the H-norm and optimality *)
+  Variable xs : vec.   (* a solution: H xs = b *)
+  Definition errH (y : vec) : F := << xs -v y, Hop (xs -v y) >>.
+
+  Lemma pythagoras b st d : Hop xs = b -> Rinv b st -> << sr st, d >> = 0 ->
+    errH (sx st +v d) = errH (sx st) + << d, Hop d >>.
+  Proof.
+    intros Hb HR Hd. unfold errH. rewrite vsub_vadd_assoc. set (e := xs -v sx st).
+    assert (He : Hop e = sr st) by (unfold e; rewrite Hop_sub, Hb; symmetry; exact HR).
+    rewrite Hop_sub, He. rewrite dot_vsub_l, !dot_vsub_r. rewrite (dot_comm d (sr st)), Hd.
+    rewrite (Hop_sym e d), He, Hd. ring.
+  Qed.
+
+  Lemma step_error b st st' : Hop xs = b -> Rinv b st ->
+    (match sprev st with None => sp st = sr st | Some rrp => << sr st, sp st >> = 0 end) ->
+    step st = Next st' ->
+    exists d, errH (sx st) = errH (sx st') + << d, Hop d >>.
+  Proof.
+    intros Hb HR Hsm Hs. apply step_next in Hs. cbn zeta in Hs.
+    destruct Hs as [Hrr (p & alpha & Hp & Hd & Halpha & ->)]. cbn [sx].
+    exists (alpha *v p). unfold errH. rewrite vsub_vadd_assoc. set (e := xs -v sx st).
+    assert (He : Hop e = sr st) by (unfold e; rewrite Hop_sub, Hb; symmetry; exact HR).
+    assert (Hrp : << sr st, p >> = << sr st, sr st >>).
+    { destruct (sprev st) as [rrp|].
+      - destruct Hp as [Hrrp ->]. rewrite dot_vadd_r, dot_vscale_r, Hsm. field. exact Hrrp.
+      - rewrite Hp, Hsm. reflexivity. }
+    rewrite Hop_sub, He, !Hop_scale. rewrite dot_vsub_l, !dot_vsub_r, !dot_vscale_l, !dot_vscale_r.
+    rewrite (dot_comm p (sr st)), Hrp, (Hop_sym e p), He, Hrp, Halpha. field. exact Hd.
+  Qed.
+
+  (* ================================================================ part 3: the statements about a whole run *)
+  Lemma past_of_snoc_dirs st0 h1 s :
+    exists r rest, past_of st0 (h1 ++ [s]) [] = (sp s, r) :: rest /\ map fst rest = rev (map (@sp F) h1)
+                   /\ map snd ((sp s, r) :: rest) = rev (map (@sr F) (st0 :: h1)).
+  Proof.
+    pose proof (past_of_dirs (h1 ++ [s]) st0 []) as Hd. pose proof (past_of_res (h1 ++ [s]) st0 []) as Hr.
+    rewrite map_app, rev_app_distr in Hd. cbn [map rev app] in Hd. rewrite app_nil_r in Hd.
+    change (st0 :: h1 ++ [s]) with ((st0 :: h1) ++ [s]) in Hr. rewrite removelast_last in Hr. cbn [map] in Hr. rewrite app_nil_r in Hr.
+    destruct (past_of st0 (h1 ++ [s]) []) as [|[p r] rest]; [discriminate|].
+    cbn [map fst] in Hd. injection Hd as -> Hd. exists r, rest. repeat split; assumption.
+  Qed.
+
+  Lemma Forall_map_iff {A B} (f : A -> B) (P : B -> Prop) l : Forall P (map f l) <-> Forall (fun a => P (f a)) l.
+  Proof. induction l as [|a l IH]; cbn; split; intros H; try constructor; inversion H; subst; try tauto. Qed.
+
+  Section Run.
+    Variables (b : vec) (x0 : option vec) (m : nat) (res : option vec) (h : list (state F)).
+    Hypothesis Hx0 : x0v = sx (init b x0).
+    Hypothesis Hrun : run b x0 m = (res, h).
+    Variables (h1 : list (state F)) (s : state F) (h2 : list (state F)).
+    Hypothesis Hsplit : h = h1 ++ s :: h2.
+
+    (* the direction of an iteration is H-conjugate to the directions of all earlier iterations *)
+    Theorem cg_conjugate : Forall (fun q : vec => << sp s, Hop q >> = 0) (map (@sp F) h1).
+    Proof.
+      pose proof (run_Inv b x0 m res h Hx0 Hrun h1 s h2 Hsplit) as (_ & _ & _ & Hcj & _).
+      destruct (past_of_snoc_dirs (init b x0) h1 s) as (r & rest & E & Hd & _). rewrite E in Hcj.
+      destruct Hcj as [Hc _]. apply Forall_rev in Hc.
+      rewrite <- (rev_involutive (map (@sp F) h1)), <- Hd, <- map_rev. apply Forall_map_iff. exact Hc.
+    Qed.
+
+    (* the residual after an iteration is orthogonal to all directions used so far ... *)
+    Theorem cg_residual_orth_dirs : Forall (fun q : vec => << sr s, q >> = 0) (map (@sp F) (h1 ++ [s])).
+    Proof.
+      pose proof (run_Inv b x0 m res h Hx0 Hrun h1 s h2 Hsplit) as (_ & Ho & _).
+      pose proof (past_of_dirs (h1 ++ [s]) (init b x0) []) as Hd. cbn [map] in Hd. rewrite app_nil_r in Hd.
+      rewrite <- (rev_involutive (map (@sp F) (h1 ++ [s]))), <- Hd. apply Forall_rev, Forall_map_iff. exact Ho.
+    Qed.
+
+    (* ... and to all earlier residuals, the initial one included *)
+    Theorem cg_residual_orth_res : Forall (fun q : vec => << sr s, q >> = 0) (map (@sr F) (init b x0 :: h1)).
+    Proof.
+      pose proof (run_Inv b x0 m res h Hx0 Hrun h1 s h2 Hsplit) as (_ & _ & Ho & _).
+      destruct (past_of_snoc_dirs (init b x0) h1 s) as (r & rest & E & _ & Hr). rewrite E in Ho.
+      rewrite <- (rev_involutive (map (@sr F) (init b x0 :: h1))), <- Hr. apply Forall_rev, Forall_map_iff. exact Ho.
+    Qed.
+
+    (* the iterate lies in x0 + span of the directions used so far *)
+    Theorem cg_iterate_in_span : exists cs, sx s = x0v +v lincomb cs (rev (map (@sp F) (h1 ++ [s]))).
+    Proof.
+      pose proof (run_Inv b x0 m res h Hx0 Hrun h1 s h2 Hsplit) as (_ & _ & _ & _ & (cs & Hx) & _).
+      pose proof (past_of_dirs (h1 ++ [s]) (init b x0) []) as Hd. cbn [map] in Hd. rewrite app_nil_r in Hd.
+      exists cs. rewrite <- Hd. exact Hx.
+    Qed.
+
+    Lemma s_in_h : In s h.
+    Proof. rewrite Hsplit. apply in_or_app. right. left. reflexivity. Qed.
+
+    (* Pythagoras in the H-inner product: moving away from the iterate inside the span of the directions
+       adds exactly the squared H-norm of the displacement to the squared H-norm of the error *)
+    Theorem cg_pythagoras : Hop xs = b -> forall cs,
+      let d := lincomb cs (map (@sp F) (h1 ++ [s])) in errH (sx s +v d) = errH (sx s) + << d, Hop d >>.
+    Proof.
+      intros Hb cs d. apply (pythagoras b); [exact Hb| |].
+      - pose proof (run_residual b x0 m res h Hrun) as HR. rewrite Forall_forall in HR. apply HR, s_in_h.
+      - apply dot_lincomb. exact cg_residual_orth_dirs.
+    Qed.
+  End Run.
+
+  (* consecutive states of a run are related by one loop pass *)
+  Lemma iter_steps fuel : forall st res h, iter fuel st = (res, h) ->
+    forall l1 s s' l2, st :: h = l1 ++ s :: s' :: l2 -> step s = Next s'.
+  Proof.
+    induction fuel as [|fuel IH]; intros st res h Hi l1 s s' l2 Hl; cbn [cg_iter] in Hi.
+    - injection Hi as _ <-. destruct l1 as [|? [|? ?]]; discriminate.
+    - destruct (step st) as [| |st'] eqn:Es; try (injection Hi as _ <-; destruct l1 as [|? [|? ?]]; discriminate).
+      destruct (iter fuel st') as [res' h'] eqn:Ei. injection Hi as _ <-.
+      destruct l1 as [|a l1]; cbn [app] in Hl.
+      + injection Hl as <- <- _. exact Es.
+      + injection Hl as _ Hl. eapply IH; eassumption.
+  Qed.
+
+  (* ---- order enters only here: an ordered field in which H is positive semi-definite *)
+  Variable fle : F -> F -> Prop.
+  Hypothesis fle_add_nonneg : forall a c, fle 0 c -> fle a (a + c).
+  Hypothesis Hop_psd : forall d, fle 0 << d, Hop d >>.
+
+  (* the iterate minimises the H-norm error over (iterate + span of the directions used so far) *)
+  Theorem cg_optimal b x0 m res h h1 s h2 : x0v = sx (init b x0) -> run b x0 m = (res, h) -> h = h1 ++ s :: h2 ->
+    Hop xs = b -> forall cs, fle (errH (sx s)) (errH (sx s +v lincomb cs (map (@sp F) (h1 ++ [s])))).
+  Proof.
+    intros Hx Hr Hs Hb cs. rewrite (cg_pythagoras b x0 m res h Hx Hr h1 s h2 Hs Hb cs).
+    apply fle_add_nonneg, Hop_psd.
+  Qed.
+
+  (* the H-norm error never increases from one iterate to the next *)
+  Theorem cg_monotone b x0 m res h l1 s s' l2 : x0v = sx (init b x0) -> run b x0 m = (res, h) ->
+    init b x0 :: h = l1 ++ s :: s' :: l2 -> Hop xs = b -> fle (errH (sx s')) (errH (sx s)).
+  Proof.
+    intros Hx Hr Hl Hb.
+    assert (Hi : iter m (init b x0) = (res, h)).
+    { unfold cg_run in Hr. destruct (feqb _ _); [|exact Hr]. injection Hr as _ <-. destruct l1 as [|? [|? ?]]; discriminate. }
+    pose proof (iter_steps m _ _ _ Hi _ _ _ _ Hl) as Hstep.
+    assert (HR : Rinv b s).
+    { destruct l1 as [|a l1]; cbn [app] in Hl; injection Hl as <- Hl; [apply init_residual|].
+      pose proof (run_residual b x0 m res h Hr) as HR. rewrite Forall_forall in HR. apply HR. rewrite Hl.
+      apply in_or_app. right. left. reflexivity. }
+    assert (Hsm : match sprev s with None => sp s = sr s | Some rrp => << sr s, sp s >> = 0 end).
+    { destruct l1 as [|a l1]; cbn [app] in Hl; injection Hl as <- Hl; [reflexivity|].
+      pose proof (run_Inv b x0 m res h Hx Hr l1 s (s' :: l2) Hl) as (_ & Ho & _ & _ & _ & Hh).
+      destruct (past_of_snoc_dirs (init b x0) l1 s) as (r & rest & E & _). rewrite E in Ho, Hh.
+      destruct Hh as (_ & Hprev & _). rewrite Hprev.
+      apply Forall_cons_iff in Ho. exact (proj1 Ho). }
+    destruct (step_error b s s' Hb HR Hsm Hstep) as [d ->]. apply fle_add_nonneg, Hop_psd.
   Qed.
 End CGProofs.
